@@ -201,6 +201,7 @@ def DEPS(count=False, wrapper=False):
                     # bodies of the dependency are verified once, in the `deps` unit; elsewhere only their
                     # contracts are used (modular verification), so the bodies are not re-verified
                     fc.external_body = True
+                    fc.try_body = False
                     fc.note = 'dependency text: body verified in unit `deps`'
                     fc.stmts = {}
                     fc.loops = {}
